@@ -3,14 +3,22 @@
 // On the processed trees of generated module sets (error-free ones) the Go worker walks every
 // tree of every module and submodule (Dir, RPC.Input, RPC.Output) into a pointer -> (tree, steps)
 // map and then calls the real Entry.Find
+//
 //   - for all (start, target) pairs (exhaustive up to 40 nodes, sampled beyond) with the absolute
 //     prefixed path of the target under every prefix the start node's context module
 //     (RootNode(start.Node)) has for the target's module, in three spellings, and with the
 //     relative path (`..` up to a common ancestor, then down); the result must be the target
 //     by pointer identity;
+//
 //   - with one corrupted step (unknown name, `bogus` below an rpc, a trailing step below a leaf,
 //     an empty step, `..` above the root, a prefix the context module does not bind): nil;
+//
 //   - for absent rpc/action inputs and outputs: exactly one node is created, with its parent.
+//
+//   - after refused loads (phase 4) and, with the processed trees KEPT, after ClearEntryCache /
+//     Process / GetModule / one more module + Process on the Modules value (phase 5, kept.go):
+//     own-module and relative lookups from nodes of the kept trees must be answered by the kept
+//     tree itself (pointer identity), lookups crossing into another module by its current tree.
 //
 // After every call the trees are re-walked (node and error counts), after the read-only phase the
 // pointer map and the full dump are compared with the ones before. The same calls, in the same
@@ -860,15 +868,16 @@ func hook(c rescorr.Case, ms *yang.Modules, errs []error, out *rescorr.GoOut) {
 				if cl.target != tt.mod || limitOf(tn) != "" || limitOf(w.nodes[q.start]) != "" {
 					continue
 				}
-				cur := yang.ToEntry(tt.mod) // what the Modules value holds for that module now
-				wantE, absentIO := walkSteps(cur, tn.steps)
-				if absentIO {
-					continue // the lookup would create an input/output in the current tree
-				}
 				st := w.nodes[q.start]
 				nb, eb := counts(w)
 				res := st.e.Find(q.path)
 				na, ea := counts(w)
+				// The oracle reads the Modules value AFTER the call: asking ToEntry before it would fill
+				// the conversion cache on the lookup's behalf (after ClearEntryCache it is empty) and hide
+				// a lookup that cannot cope with that. An input/output the lookup had to create in the
+				// current tree is there by now and is the node the path names.
+				cur := yang.ToEntry(tt.mod) // what the Modules value holds for that module
+				wantE := walkSteps(cur, tn.steps)
 				want, alt := "none", locOf("kept|"+tt.ref, tn.steps, tn.e)
 				if wantE != nil {
 					want = locOf("current|"+tt.ref, tn.steps, wantE)
@@ -1133,8 +1142,8 @@ func runCases(cases []rescorr.Case, f *lib.Flags) []worked {
 
 type tally struct {
 	sets, noTrees, outside, nonWF, queries, absQ, relQ, badQ, createQ, nodes, wfSets, crossQ int64
-	kinds                                                                            map[string]int64
-	triples                                                                          *lib.Distinct
+	kinds                                                                                    map[string]int64
+	triples                                                                                  *lib.Distinct
 }
 
 // judge compares one worked case; it reports disagreements through res.
@@ -1240,8 +1249,8 @@ func judge(w worked, res *lib.Result, t *tally, verbose bool) (bad bool) {
 			reportedSpec++
 			what := fmt.Sprintf("%s: %s returned %s, the path names %s", kf[0], readableQuery(q[i]), readableLoc(goLoc), readableLoc(want[i]))
 			if keptPert != "" {
-				what = fmt.Sprintf("a lookup on a processed tree must return the very node of THAT tree (own-module or relative path: answered by the tree the start node lives in, not by the conversion cache): after %s on the Modules value, %s from the tree kept from Process returned %s, the path names %s [%s]",
-					keptPert, readableQuery(q[i]), readableLoc(goLoc), readableLoc(want[i]), keptBase)
+				what = fmt.Sprintf("lookup on a processed tree does not return that very node: after %s on the Modules value, %s in the tree kept from Process returned %s; the path names %s of that same tree (an own-module or relative path is answered by the tree the start node lives in, whatever the Modules value's conversion cache holds by now) [%s]",
+					keptPert, readableQuery(q[i]), strings.TrimSpace(readableLoc(goLoc)), strings.TrimSpace(readableLoc(want[i])), keptBase)
 			}
 			report(lib.Disagreement{Kind: "spec", Go: readableLoc(a[i]), Model: readableLoc(mans[i]), SpecVerdict: "violates", Known: known, What: what})
 		}
@@ -1286,8 +1295,8 @@ func judge(w worked, res *lib.Result, t *tally, verbose bool) (bad bool) {
 		t.kinds["VIOLATING-kept-crossing"]++
 		if reportedCross < 4 {
 			reportedCross++
-			what := fmt.Sprintf("a lookup that crosses from a kept processed tree into another module must return the node the path names in that module's current tree (ToEntry at the time of the call; nothing when that tree lacks it): after %s on the Modules value, %s returned %s, the current tree has %s [%s]",
-				pert, readableQuery(kq[i]), readableLoc(goLoc), readableLoc(kwant[i]), base)
+			what := fmt.Sprintf("lookup from a kept processed tree into another module does not return the node the path names in that module's current tree: after %s on the Modules value, %s returned %s; walking ToEntry(module) gives %s [%s]",
+				pert, readableQuery(kq[i]), strings.TrimSpace(readableLoc(goLoc)), strings.TrimSpace(readableLoc(kwant[i])), base)
 			if okLoc {
 				what = fmt.Sprintf("a lookup changes no tree: after %s on the Modules value, %s changed the kept trees (%s)", pert, readableQuery(kq[i]), ka[i])
 			}
@@ -1431,7 +1440,7 @@ func main() {
 	}
 	res.Evaluations = t.queries
 	res.DistinctNontrivial = t.triples.Len()
-	res.Rule = "hand-written corpus (the Lean example forest, submodules, grouping copies from other modules, implicit cases, absent rpc/action input and output, the documented-limit witnesses D17-L1, the rejected augment into an rpc node) + seeded grammar-directed module sets (harness/gen; 3/4 without deliberate faults; 3/8 with prefixes re-assigned so that import prefixes and own prefixes collide with module names (name of another import before or after it, own module name, mutual) and shuffled import order; 3/8 with bare nodes grafted by importing modules directly into foreign choices (their implied cases are start nodes whose prefix context is the augmenting module); 1/4 with added late augments: target through or at the implied case of a shorthand choice member, body with shorthand choice members, written in the owning module, a submodule or an importing module); per error-free set all (start, target) pairs of nodes of all module and submodule trees up to 40 nodes (sampled beyond) x absolute path under every prefix the start's context module binds to the target's module (3 spellings) and relative path, + one-corrupted-step paths (unknown name, empty step, bogus below rpc, step below a leaf, `..` above the root, unbound prefix, an imported module's name used as prefix, a step inserted before or put in place of any step with names from the structural pool (module names and prefixes, input/output, grouping/typedef/identity names), Entry.Path() used as a lookup, and every name of a deeper descendant used as a direct step, absolute and relative), + creation of absent rpc inputs/outputs + the same lookups (sampled, every kind) re-asked after each of up to six refused loads (bundle [newer revision of a loaded module, duplicate], [new module, duplicate], single duplicate, syntax error, unknown statement) on the same processed trees; evaluations = Find calls compared with the model; distinct_nontrivial = distinct (set, start, target) triples looked up with a path of at least 2 steps"
+	res.Rule = "hand-written corpus (the Lean example forest, submodules, grouping copies from other modules, implicit cases, absent rpc/action input and output, the documented-limit witnesses D17-L1, the rejected augment into an rpc node) + seeded grammar-directed module sets (harness/gen; 3/4 without deliberate faults; 3/8 with prefixes re-assigned so that import prefixes and own prefixes collide with module names (name of another import before or after it, own module name, mutual) and shuffled import order; 3/8 with bare nodes grafted by importing modules directly into foreign choices (their implied cases are start nodes whose prefix context is the augmenting module); 1/4 with added late augments: target through or at the implied case of a shorthand choice member, body with shorthand choice members, written in the owning module, a submodule or an importing module); per error-free set all (start, target) pairs of nodes of all module and submodule trees up to 40 nodes (sampled beyond) x absolute path under every prefix the start's context module binds to the target's module (3 spellings) and relative path, + one-corrupted-step paths (unknown name, empty step, bogus below rpc, step below a leaf, `..` above the root, unbound prefix, an imported module's name used as prefix, a step inserted before or put in place of any step with names from the structural pool (module names and prefixes, input/output, grouping/typedef/identity names), Entry.Path() used as a lookup, and every name of a deeper descendant used as a direct step, absolute and relative), + creation of absent rpc inputs/outputs + the same lookups (sampled, every kind) re-asked after each of up to six refused loads (bundle [newer revision of a loaded module, duplicate], [new module, duplicate], single duplicate, syntax error, unknown statement) on the same processed trees; + KEPT TREES (every corpus and generated set): the processed trees are kept while the Modules value moves on — ClearEntryCache, Process again, GetModule of one of the modules, one more unrelated module loaded and Process, all four one after the other in a seeded order — and after each step up to 36 absolute own-module, 14 relative and 14 corrupted lookups of the kinds above (sampled) are repeated FROM NODES OF THE KEPT TREES: rule: a relative path and an absolute path whose first step denotes the module of the tree the start node lives in (by its prefix read in the start's context module; bare: the start's own module) must return, by pointer identity, the entry reached by walking the kept tree (nil for a corrupted path) and leave the trees unchanged — these are compared with the model too, whose forest is the kept forest; up to 16 absolute lookups per step that cross into ANOTHER module's tree (foreign first prefix; any absolute path started in a submodule's private tree) must return the entry reached by walking the target's steps from yang.ToEntry(that module) as it is at the time of the call (its current tree; nil when that tree has no such node, e.g. a grafted node after ClearEntryCache) or the node of that module's kept tree, and change no kept tree — Go-side oracle only (the model has one forest), the current tree is read after the call so that the oracle does not fill the conversion cache on the lookup's behalf; evaluations = Find calls compared with the model; distinct_nontrivial = distinct (set, start, target) triples looked up with a path of at least 2 steps"
 	res.Distribution["sets_compared"] = t.sets
 	res.Distribution["sets_without_trees(errors/parse)"] = t.noTrees
 	res.Distribution["outside_model"] = t.outside
